@@ -1826,19 +1826,23 @@ impl VmGreenThread {
             Instr::Modulo(dest, reg1, reg2) => {
                 let b = self.load_offset_or_top(reg2).get_int(self);
                 let a = self.load_offset_or_top(reg1).get_int(self);
-                let Some(c) = a.checked_rem_euclid(b) else {
+                if b == 0 {
                     self.error = Some(self.make_error(VmErrorKind::DivisionByZero).into());
                     return false;
-                };
+                }
+                // never overflows: the Euclidean remainder lies in 0..|b| (MIN % -1 is 0)
+                let c = a.wrapping_rem_euclid(b);
                 self.store_offset_or_top(dest, c);
             }
             Instr::ModuloImm(dest, reg1, imm) => {
                 let a = self.load_offset_or_top(reg1).get_int(self);
                 let b = self.shared.int_constants[imm as usize];
-                let Some(c) = a.checked_rem_euclid(b) else {
+                if b == 0 {
                     self.error = Some(self.make_error(VmErrorKind::DivisionByZero).into());
                     return false;
-                };
+                }
+                // never overflows: the Euclidean remainder lies in 0..|b| (MIN % -1 is 0)
+                let c = a.wrapping_rem_euclid(b);
                 self.store_offset_or_top(dest, c);
             }
             Instr::BitXor(dest, reg1, reg2) => {
